@@ -248,7 +248,11 @@ func everyOtherState(c *Config) [][]string {
 }
 
 // SceneGrid: small hands under test, each placed in every scene.
-func SceneGrid(tier string) []*Config {
+func SceneGrid(tier string) []*Config { return sceneGrid(tier, tier == "thorough") }
+
+// sceneGrid: everyOther adds, for the two smallest subjects, every reachable state of two small
+// other hands as prelude (about 1400 more configurations).
+func sceneGrid(tier string, everyOther bool) []*Config {
 	subjects := []*Config{
 		cfg([]int64{3, 5}, 0, 1, 2, 0, false, 0, "no", "f52", 2, 0, "standard", "classes"),
 		cfg([]int64{2, 4, 3}, 1, 1, 2, 0, false, 1, "no", "f52", 2, 0, "standard", "classes"),
@@ -260,7 +264,7 @@ func SceneGrid(tier string) []*Config {
 			cfg([]int64{2, 3, 2, 3}, 0, 1, 2, 0, false, 0, "no", "f52", 2, 0, "standard", "classes"))
 	}
 	var out []*Config
-	if tier == "thorough" {
+	if everyOther {
 		// every reachable state of two tiny other hands (heads-up; 3-handed with an ante) as what the
 		// process / the game object has been through, for the two smallest subjects
 		for _, oc := range []*Config{
